@@ -1244,6 +1244,50 @@ private:
     NodeSorter                          m_nodeSorter;
 #endif
 
+#if defined(XALAN_C_VERIF_HOOKS) && !defined(XALAN_RECURSIVE_STYLESHEET_EXECUTION)
+public:
+    // verification hook (add-only): sizes of every internal stack / per-transformation table and null-ness of
+    // the per-transformation pointers, so that state left behind by a transformation is seen at the call that
+    // leaves it (C06 check)
+    template<class VectorType>
+    void
+    verifStackSizes(VectorType&     v) const
+    {
+        typedef typename VectorType::value_type     value_type;
+        v.push_back(value_type("EC.m_elementRecursionStack", long(m_elementRecursionStack.size())));
+        v.push_back(value_type("EC.m_formatterListeners", long(m_formatterListeners.size())));
+        v.push_back(value_type("EC.m_printWriters", long(m_printWriters.size())));
+        v.push_back(value_type("EC.m_outputStreams", long(m_outputStreams.size())));
+        v.push_back(value_type("EC.m_matchPatternCache", long(m_matchPatternCache.size())));
+        v.push_back(value_type("EC.m_keyTables", long(m_keyTables.size())));
+        v.push_back(value_type("EC.m_currentTemplateStack", long(m_currentTemplateStack.size())));
+        v.push_back(value_type("EC.m_copyTextNodesOnlyStack", long(m_copyTextNodesOnlyStack.size())));
+        v.push_back(value_type("EC.m_modeStack", long(m_modeStack.size())));
+        v.push_back(value_type("EC.m_currentIndexStack", long(m_currentIndexStack.size())));
+        v.push_back(value_type("EC.m_xobjectPtrStack", long(m_xobjectPtrStack.size())));
+        v.push_back(value_type("EC.m_nodesToTransformStack", long(m_nodesToTransformStack.size())));
+        v.push_back(value_type("EC.m_processCurrentAttributeStack", long(m_processCurrentAttributeStack.size())));
+        v.push_back(value_type("EC.m_executeIfStack", long(m_executeIfStack.size())));
+        v.push_back(value_type("EC.m_skipElementAttributesStack", long(m_skipElementAttributesStack.size())));
+        v.push_back(value_type("EC.m_paramsVectorStack", long(m_paramsVectorStack.size())));
+        v.push_back(value_type("EC.m_elementInvokerStack", long(m_elementInvokerStack.size())));
+        v.push_back(value_type("EC.m_useAttributeSetIndexesStack", long(m_useAttributeSetIndexesStack.size())));
+        v.push_back(value_type("EC.m_mutableNodeRefListStack", long(m_mutableNodeRefListStack.verifNumObjectsOnStack())));
+        v.push_back(value_type("EC.m_stringStack", long(m_stringStack.verifNumObjectsOnStack())));
+        v.push_back(value_type("EC.m_formatterToTextStack", long(m_formatterToTextStack.verifNumObjectsOnStack())));
+        v.push_back(value_type("EC.m_formatterToSourceTreeStack", long(m_formatterToSourceTreeStack.verifNumObjectsOnStack())));
+        v.push_back(value_type("EC.m_xsltProcessor", m_xsltProcessor != 0 ? 1L : 0L));
+        v.push_back(value_type("EC.m_rootDocument", m_rootDocument != 0 ? 1L : 0L));
+        v.push_back(value_type("EC.m_stylesheetRoot", m_stylesheetRoot != 0 ? 1L : 0L));
+        v.push_back(value_type("EC.m_mode", m_mode != 0 ? 1L : 0L));
+        v.push_back(value_type("EC.m_xobjectFactory", m_xobjectFactory != 0 ? 1L : 0L));
+        v.push_back(value_type("EC.m_sourceTreeResultTreeFactory", m_sourceTreeResultTreeFactory.get() != 0 ? 1L : 0L));
+        m_variablesStack.verifSizes(v);
+        m_xpathExecutionContextDefault.verifSizes(v);
+    }
+private:
+#endif
+
     // If true, we will use a separate document factory for
     // result tree fragments.
     bool                                m_usePerInstanceDocumentFactory;
